@@ -365,3 +365,114 @@ Proof.
       pose proof (sum_costs_subseteq _ _ Hsub Hpos).
       lia.
 Qed.
+
+(* the victim list only grows during the loop *)
+Lemma add_loop_victims_grow est key cost inc f : forall o pp mm s v r rv ra rp rm rr rj x,
+  add_loop f o est key cost inc pp mm s v r = AddOk rv ra rp rm rr rj -> x ∈ v.*1 -> x ∈ rv.*1.
+Proof.
+  induction f as [|f IHf]; intros o pp mm s v r rv ra rp rm rr rj x Hr Hx; simpl in Hr.
+  - destruct (0 <=? room_left pp cost); [|discriminate]. now inversion Hr; subst.
+  - destruct (0 <=? room_left pp cost); [now inversion Hr; subst|].
+    destruct (min_entry est _ 0 None) as [[[[i' mk'] mc'] mh']|]; [|now inversion Hr; subst].
+    destruct (inc <? mh'); [now inversion Hr; subst|].
+    destruct (pol_del pp mm mk') as [pp' mm'].
+    eapply IHf; [exact Hr|]. rewrite fmap_app. apply elem_of_app. now left.
+Qed.
+
+(* every key that leaves the key-cost map during Add is reported as a victim *)
+Lemma add_loop_removed fuel : forall orders est key cost inc p m sample victims rounds
+    res_v res_a res_p res_m res_r res_j k' c',
+  add_loop fuel orders est key cost inc p m sample victims rounds = AddOk res_v res_a res_p res_m res_r res_j ->
+  p_costs p !! k' = Some c' -> k' <> key ->
+  p_costs res_p !! k' = Some c' \/ k' ∈ res_v.*1.
+Proof.
+  induction fuel as [|fuel IH]; intros orders est key cost inc p m sample victims rounds
+    res_v res_a res_p res_m res_r res_j k' c' Hrun Hk Hne; simpl in Hrun.
+  - destruct (0 <=? room_left p cost); [|discriminate]. inversion Hrun; subst.
+    left. unfold pol_insert; simpl. rewrite lookup_insert_ne; auto.
+  - destruct (0 <=? room_left p cost).
+    { inversion Hrun; subst. left. unfold pol_insert; simpl. rewrite lookup_insert_ne; auto. }
+    destruct (min_entry est _ 0 None) as [[[[i mk] mc] mh]|].
+    + destruct (inc <? mh); [inversion Hrun; subst; now left|].
+      destruct (pol_del p m mk) as [p' m'] eqn:Edel.
+      assert (Hp' : p_costs p' = delete mk (p_costs p)).
+      { pose proof (pol_del_costs p m mk) as H. now rewrite Edel in H. }
+      destruct (decide (k' = mk)) as [->|Hmk].
+      * right. eapply add_loop_victims_grow; [exact Hrun|].
+        rewrite fmap_app. apply elem_of_app. right. simpl. apply elem_of_list_singleton. reflexivity.
+      * eapply IH; [exact Hrun| |exact Hne]. rewrite Hp'. rewrite lookup_delete_ne; auto.
+    + inversion Hrun; subst. now left.
+Qed.
+
+Lemma pol_add_removed orders est p m key cost vs added p' m' rounds rej k' c' :
+  pol_add orders est p m key cost = AddOk vs added p' m' rounds rej ->
+  p_costs p !! k' = Some c' -> k' <> key -> p_costs p' !! k' = Some c' \/ k' ∈ vs.*1.
+Proof.
+  unfold pol_add. intros Hrun Hk Hne.
+  destruct (p_max p <? cost); [inversion Hrun; subst; now left|].
+  unfold pol_update_if_has in Hrun. destruct (p_costs p !! key) eqn:E.
+  - inversion Hrun; subst. left. simpl. rewrite lookup_insert_ne; auto.
+  - eapply add_loop_removed; eauto.
+Qed.
+
+(* apart from the newcomer, Add only deletes from the key-cost map *)
+Lemma add_loop_sub fuel : forall orders est key cost inc p m sample victims rounds
+    res_v res_a res_p res_m res_r res_j,
+  add_loop fuel orders est key cost inc p m sample victims rounds = AddOk res_v res_a res_p res_m res_r res_j ->
+  delete key (p_costs res_p) ⊆ p_costs p.
+Proof.
+  induction fuel as [|fuel IH]; intros orders est key cost inc p m sample victims rounds
+    res_v res_a res_p res_m res_r res_j Hrun; simpl in Hrun.
+  - destruct (0 <=? room_left p cost); [|discriminate]. inversion Hrun; subst.
+    unfold pol_insert; simpl. rewrite delete_insert_delete. apply delete_subseteq.
+  - destruct (0 <=? room_left p cost).
+    { inversion Hrun; subst. unfold pol_insert; simpl. rewrite delete_insert_delete. apply delete_subseteq. }
+    destruct (min_entry est _ 0 None) as [[[[i mk] mc] mh]|]; [|inversion Hrun; subst; apply delete_subseteq].
+    destruct (inc <? mh); [inversion Hrun; subst; apply delete_subseteq|].
+    destruct (pol_del p m mk) as [p' m'] eqn:Edel.
+    assert (Hp' : p_costs p' = delete mk (p_costs p)).
+    { pose proof (pol_del_costs p m mk) as H. now rewrite Edel in H. }
+    etrans; [eapply IH; exact Hrun|]. rewrite Hp'. apply delete_subseteq.
+Qed.
+
+(* victims are gone from the key-cost map when Add returns *)
+Lemma add_loop_victims_gone fuel : forall orders est key cost inc p m sample victims rounds
+    res_v res_a res_p res_m res_r res_j x,
+  add_loop fuel orders est key cost inc p m sample victims rounds = AddOk res_v res_a res_p res_m res_r res_j ->
+  x ∈ res_v.*1 -> x <> key -> x ∈ victims.*1 \/ p_costs res_p !! x = None.
+Proof.
+  induction fuel as [|fuel IH]; intros orders est key cost inc p m sample victims rounds
+    res_v res_a res_p res_m res_r res_j x Hrun Hx Hne; simpl in Hrun.
+  - destruct (0 <=? room_left p cost); [|discriminate]. inversion Hrun; subst. now left.
+  - destruct (0 <=? room_left p cost); [inversion Hrun; subst; now left|].
+    destruct (min_entry est _ 0 None) as [[[[i mk] mc] mh]|]; [|inversion Hrun; subst; now left].
+    destruct (inc <? mh); [inversion Hrun; subst; now left|].
+    destruct (pol_del p m mk) as [p' m'] eqn:Edel.
+    assert (Hp' : p_costs p' = delete mk (p_costs p)).
+    { pose proof (pol_del_costs p m mk) as H. now rewrite Edel in H. }
+    destruct (IH _ _ _ _ _ _ _ _ _ _ _ _ _ _ _ _ _ Hrun Hx Hne) as [Hin|Hgone]; [|now right].
+    rewrite fmap_app in Hin. apply elem_of_app in Hin. destruct Hin as [Hin|Hin]; [now left|].
+    simpl in Hin. apply elem_of_list_singleton in Hin. subst x. right.
+    pose proof (add_loop_sub _ _ _ _ _ _ _ _ _ _ _ _ _ _ _ _ _ Hrun) as Hsub.
+    destruct (p_costs res_p !! mk) as [c0|] eqn:E; auto. exfalso.
+    assert (Hd : delete key (p_costs res_p) !! mk = Some c0) by (rewrite lookup_delete_ne; auto).
+    pose proof (lookup_weaken _ _ _ _ Hd Hsub) as Hw. rewrite Hp', lookup_delete in Hw. discriminate.
+Qed.
+
+Lemma pol_add_victims_gone orders est p m key cost vs added p' m' rounds rej x :
+  pol_add orders est p m key cost = AddOk vs added p' m' rounds rej -> pol_ok p ->
+  x ∈ vs.*1 -> x <> key /\ p_costs p' !! x = None.
+Proof.
+  intros Hrun Hok Hx.
+  pose proof (pol_add_spec _ _ _ _ _ _ _ _ _ _ _ _ Hrun Hok) as (_ & _ & Hrounds & Hvs & _ & _).
+  unfold pol_add in Hrun.
+  destruct (p_max p <? cost); [inversion Hrun; subst; inversion Hx|].
+  unfold pol_update_if_has in Hrun. destruct (p_costs p !! key) eqn:Ek; [inversion Hrun; subst; inversion Hx|].
+  assert (Hne : x <> key).
+  { subst vs. rewrite <- list_fmap_compose in Hx. apply elem_of_list_fmap in Hx. destruct Hx as (r & -> & Hr).
+    rewrite List.Forall_forall in Hrounds. apply elem_of_list_In in Hr.
+    destruct (Hrounds r Hr) as (Hin & _ & _ & _ & _ & Hdom).
+    destruct (Hdom _ Hin) as [c0 Hc0]. simpl. intros E. rewrite E in Hc0. congruence. }
+  split; [exact Hne|].
+  destruct (add_loop_victims_gone _ _ _ _ _ _ _ _ _ _ _ _ _ _ _ _ _ _ Hrun Hx Hne) as [Hin|]; auto. inversion Hin.
+Qed.
